@@ -138,3 +138,8 @@ def _drop_guard(ex, st, v):
 
 
 Executor.drop_hooks['mutexguard'] = _drop_guard
+
+
+@model(r'^anymap2::(?:any::)?(?:Any)?Map(?:::<.*>)?::new$')
+def anymap_new(ctx, args, st):
+    return ret(st, Opaque(('AnyMap',)))
